@@ -962,3 +962,16 @@ def regenerator_sentinels():
     if not deleted:
         out.append({"name": "structural::C08::sentinels[coverage]", "ok": True, "info": "the regenerator deletes no character unconditionally", "detail": ""})
     return out
+
+
+@check("C14", "C17")
+def protected_rule_flags():
+    """RulePlugin's four is_*_implemented_in_plugin flags are stored only by RulePlugin.__init__ and
+    RulePlugin.set_configuration_map (backs the assumed contract of a rule's initialize_from_config: it cannot change into which
+    dispatch lists the rule is entered)"""
+    names = [f"__is_{n}_implemented_in_plugin" for n in ("next_token", "next_line", "completed_file", "starting_new_file")]
+    names += ["_RulePlugin" + n for n in names]
+    sites = store_sites(names)
+    bad = [s for s in sites if not (s[0] == "pymarkdown/plugin_manager/rule_plugin.py" and s[1] in ("RulePlugin.__init__", "RulePlugin.set_configuration_map"))]
+    return [{"name": "structural::C14::protected[rule flags]", "ok": bool(sites) and not bad, "info": protected_rule_flags.__doc__,
+             "detail": f"store sites: {sites}; unexpected: {bad}"}]
